@@ -373,7 +373,10 @@ def find_largest_size_bounded_curvature(DX, diam_X, d):
         # Pick a row (and column) with highest number of off-diagonal
         # distances < d, then with smallest sum of off-diagonal
         # distances ≥ d.
-        K_rows_sortkeys = -np.sum(K < d, axis=0) * (len(K) * diam_X) + \
+        # diam_X is a NumPy scalar of the smallest sufficient integer type: multiply as
+        # Python integers, otherwise len(K) * diam_X wraps around or (NumPy >= 2) raises
+        # OverflowError as soon as X has 128 points.
+        K_rows_sortkeys = -np.sum(K < d, axis=0) * (len(K) * int(diam_X)) + \
                       np.sum(np.ma.masked_less(K, d), axis=0).data
         row_to_remove = np.argmin(K_rows_sortkeys)
         # Remove the row and column from K.
